@@ -784,6 +784,11 @@ class Dict(dict, base.Symbolic, pg_typing.CustomTyping):
     if isinstance(value, base.TopologyAware):
       value.sym_setparent(None)
       value.sym_setpath(utils.KeyPath())
+    if flags.is_change_notification_enabled():
+      self._notify_field_updates([
+          base.FieldUpdate(
+              self.sym_path + key, self, None, value, pg_typing.MISSING_VALUE)
+      ])
     return key, value
 
   def clear(self) -> None:
@@ -791,16 +796,39 @@ class Dict(dict, base.Symbolic, pg_typing.CustomTyping):
     if base.treats_as_sealed(self):
       raise base.WritePermissionError('Cannot clear a sealed Dict.')
     value_spec = self._value_spec
+    if value_spec:
+      # Make sure that the empty dict is acceptable (e.g. no required field
+      # without a default) before the content is destroyed.
+      value_spec.apply(dict(), allow_partial=base.accepts_partial(self))
     self._value_spec = None
+    old_items = list(self.sym_items())
     # Detach old values from object tree.
-    for old_value in self.sym_values():
+    for _, old_value in old_items:
       if isinstance(old_value, base.TopologyAware):
         old_value.sym_setparent(None)
         old_value.sym_setpath(utils.KeyPath())
     super().clear()
 
     if value_spec:
-      self.use_value_spec(value_spec, self._allow_partial)
+      # Changes are reported once, below.
+      with flags.notify_on_change(False):
+        self.use_value_spec(value_spec, self._allow_partial)
+
+    if flags.is_change_notification_enabled() and old_items:
+      target = self
+      if (self.sym_parent is not None
+          and self.sym_parent.sym_path == self.sym_path):
+        target = self.sym_parent
+      updates = []
+      for k, old_value in old_items:
+        new_value = super().get(k, pg_typing.MISSING_VALUE)
+        if new_value is not old_value:
+          field = (value_spec.schema.get_field(k)
+                   if value_spec and value_spec.schema else None)
+          updates.append(base.FieldUpdate(
+              self.sym_path + k, target, field, old_value, new_value))
+      if updates:
+        self._notify_field_updates(updates)
 
   def setdefault(self, key: Union[str, int], default: Any = None) -> Any:
     """Sets default as the value to key if not present."""
